@@ -507,16 +507,43 @@ func valueImmutable(t types.Type) bool {
 func (r *Run) constructorOnly(sname, field string) bool {
 	for _, fn := range r.P.Funcs {
 		for _, ins := range allInstrs(fn) {
-			st, ok := ins.(*ssa.Store)
-			if !ok {
-				continue
-			}
-			fa, ok := st.Addr.(*ssa.FieldAddr)
-			if !ok || structOfFieldAddr(fa) != sname || fieldOf(fa) == nil || fieldOf(fa).Name() != field {
-				continue
-			}
-			if al, isAl := fa.X.(*ssa.Alloc); !isAl || al.Parent() != fn {
-				return false
+			switch x := ins.(type) {
+			case *ssa.FieldAddr:
+				if structOfFieldAddr(x) != sname || fieldOf(x) == nil || fieldOf(x).Name() != field {
+					continue
+				}
+				al, isAl := x.X.(*ssa.Alloc)
+				fresh := isAl && al.Parent() == fn
+				for _, ref := range *x.Referrers() {
+					switch y := ref.(type) {
+					case *ssa.UnOp, *ssa.DebugRef:
+						// a load
+					case *ssa.Store:
+						if y.Addr == ssa.Value(x) && !fresh {
+							return false
+						}
+						if y.Val == ssa.Value(x) {
+							return false // the field's address is kept somewhere
+						}
+					default:
+						// the address of the field leaves the expression (argument of a call,
+						// element of a literal, captured, ...): whoever gets it can write through
+						// it (second table audit: `count(&cp.served)`)
+						if !fresh {
+							return false
+						}
+					}
+				}
+			case *ssa.Store:
+				// the whole struct is overwritten through a pointer: `*cp = CachedPlanner{...}`
+				if _, isFA := x.Addr.(*ssa.FieldAddr); isFA {
+					continue
+				}
+				if pt, ok := x.Addr.Type().Underlying().(*types.Pointer); ok && namedOf(pt.Elem()) == sname {
+					if al, isAl := x.Addr.(*ssa.Alloc); !isAl || al.Parent() != fn {
+						return false
+					}
+				}
 			}
 		}
 	}
